@@ -398,7 +398,8 @@ func (x *Executor) execLoop(fr *Frame, li *loopInfo, ins []incoming) map[*ssa.Ba
 	}
 	// 3. havoc write set
 	stH := stE.clone()
-	stH.ghost = map[string]string{}
+	// (the visited sets of enclosing map-range loops are not touched by this loop: they are kept;
+	// this loop's own set is re-havoced just below, inner loops re-initialise theirs at their range)
 	// a range-over-map loop: the set of keys visited so far is arbitrary at the cut (invariants
 	// constrain it through the name `visited`)
 	if rng := mapRangeOf(li); rng != nil {
